@@ -104,9 +104,10 @@ class ProgramInfo(NamedTuple):
                 (data_index, elem_index) = ref
                 param_items.append((name, ArrayElemDesc(data_index, elem_index)))
 
+            # Parameter names are looked up case-insensitively, so they must also be unique when letter case is ignored.
             param: Dict[str, ParameterDesc] = {}
             for (name, desc) in param_items:
-                if name in param:
+                if any(name.upper() == other_name.upper() for other_name in param):
                     raise QMI_ConfigurationException("Duplicate use of parameter name {!r} in ADwin program \"{!r}\"!"
                                                      .format(name, config.file))
                 param[name] = desc
